@@ -314,9 +314,10 @@ def main():
     }
 
     if args.FILE:
+        exitcode = 0
         for file in args.FILE:
             with open(file, encoding=args.encoding) as f:
-                exitcode = process(
+                exitcode |= process(
                     f,
                     model,
                     sys.stdout,
